@@ -631,6 +631,62 @@ def run_onesided_digit(facts, rep, files=None):
     return n
 
 
+def run_dropped_carry(facts, rep, files=None):
+    """R-CONTRA(carry): add_u64 / sub_u64 (and their carry-in variants) return the carry / borrow OUT of the word.  When the
+    sum or difference is stored into one word of a multi-word number (an element of a [u64] / Vec<u64> buffer) and the returned
+    carry / borrow is discarded, the higher words are never adjusted: whenever the low word wraps, the number is off by 2^64
+    (a constant `q - t` becomes `q - t + 2^64` whenever q mod 2^64 < t)."""
+    R = "R-CONTRA(carry)"
+    rep.rule(R, "the carry / borrow returned by a single-word add / sub whose result goes into a word of a multi-word buffer is "
+             "not discarded")
+    PRIMS = ("add_u64", "sub_u64", "add_u64_carry", "sub_u64_borrow")
+    n = 0
+    hit = False
+    ti = {s_: i_ for i_, s_ in enumerate(facts.strs)}
+    syn = None
+    vt = next((s_ for s_ in ti if s_.startswith("std::vec::Vec<u64")), None)
+    if vt:
+        out = {"k": "Ref", "e": {"k": "Index", "e": {"k": "Path", "res": "local", "lid": 1, "name": "w", "t": ti[vt]}, "i": {"k": "Lit", "v": "0"}}}
+        syn = {"k": "Block", "stmts": [{"k": "Semi", "e": {"k": "Call", "f": {"name": "sub_u64", "def": "util::basic::sub_u64"},
+                                                          "args": [{"k": "Lit", "v": "1"}, {"k": "Lit", "v": "2"}, out]}}]}
+    todo = ([("<self-test>", syn)] if syn else []) + [(p, facts.hir[p]) for p in sorted(facts.hir)
+                                                      if (files is None or facts.items[p]["file"] in files) and "::tests::" not in p]
+    for p, body in todo:
+        tree = Tree(body)
+        k_site = 0
+        for x in walk(body):
+            if x.get("k") != "Call" or (callee(x) or {}).get("name") not in PRIMS:
+                continue
+            up = tree.up(x)
+            if up is None or up.get("k") != "Semi":
+                continue
+            dst = strip(x["args"][-1]) if x.get("args") else {}
+            multi = False
+            if dst.get("k") == "Index":
+                bt = facts.ty(dst["e"]).replace("&mut ", "").replace("&", "").strip()
+                multi = bt.startswith("[u64]") or "Vec<u64" in bt
+            if p == "<self-test>":
+                hit = hit or multi
+                continue
+            n += 1
+            rep.fn(p)
+            key = "%s/dropped#%d" % (p, k_site)
+            k_site += 1
+            nm = (callee(x) or {}).get("name")
+            if multi:
+                rep.violation(R, key, "the %s returned by %s is discarded while its result is stored into one word of a multi-word "
+                              "buffer: the higher words are not adjusted, so the number is off by 2^64 whenever the low word wraps" %
+                              ("borrow" if "sub" in nm else "carry", nm), facts.loc(p, x))
+            else:
+                rep.unresolved(R, key, "%s's carry / borrow is discarded (single-word destination)" % nm, facts.loc(p, x))
+    if syn is not None:
+        if hit:
+            rep.ok(R, "self-test", "the matcher recognises a discarded borrow of sub_u64 into w[0]", "rules/r_contra.py", nontrivial=False)
+        else:
+            rep.violation(R, "self-test", "the dropped-carry matcher no longer recognises its positive example")
+    return n
+
+
 def _len_recv(e):
     """root local of X in `X.len()` (through - 1), else None"""
     e = strip(e)
